@@ -345,7 +345,7 @@ class LoopContract:
         lname = '%s/loop%s' % (fr.qname, self.ordinal)
         entry = st.clone()
         # (views handed to specifications are frozen copies: quantified clauses are instantiated later, when the live state has moved on)
-        L = LoopCtx(eng, st.clone(), entry, fr, range_info)
+        L = LoopCtx(eng, st.clone(), entry, fr, range_info, n)
         # 1. invariant holds on entry
         for (nm, g) in self.invariant(L):
             eng.obligations.append(Obligation('inv-init[%s]:%s' % (self.ordinal, nm), L.st.pc, g, 'loop', eng.where(n, fr), info={'fn': fr.qname}))
@@ -399,7 +399,7 @@ class LoopContract:
         head = st.clone()
         # objects created before the loop (locals carry negative references -1, -2, ...) belong to the loop frame too
         head.ghost['alloc_watermark'] = next(eng.alloc)
-        L = LoopCtx(eng, st.clone(), entry, fr, range_info)
+        L = LoopCtx(eng, st.clone(), entry, fr, range_info, n)
         npc = len(L.st.pc)
         invs_ = self.invariant(L)
         st.pc.extend(L.st.pc[npc:])          # axioms about the terms the invariant mentions (lengths >= 0, element identities)
@@ -417,7 +417,7 @@ class LoopContract:
         sx = sb.clone(); sx.pc.append(z3.Not(c))
         sx.ghost['loop_exit:%s' % self.ordinal] = Opaque('state', sx.clone())      # what held on leaving the loop, for postconditions
         sb.pc.append(c)
-        var0 = self.decreases(LoopCtx(eng, sb, entry, fr, range_info)) if self.decreases else None
+        var0 = self.decreases(LoopCtx(eng, sb, entry, fr, range_info, n)) if self.decreases else None
         if bind is not None: bind(sb)
         exits = [(sx, None)]
         for (s2, o) in eng.exec_stmt(body, sb, fr):
@@ -425,7 +425,7 @@ class LoopContract:
                 if inc is not None:
                     if callable(inc): inc(s2)
                     else: eng.ev(inc, s2, fr)
-                L2 = LoopCtx(eng, s2.clone(), entry, fr, range_info)
+                L2 = LoopCtx(eng, s2.clone(), entry, fr, range_info, n)
                 for (nm, g) in self.invariant(L2):
                     eng.obligations.append(Obligation('inv-step[%s]:%s' % (self.ordinal, nm), L2.st.pc, g, 'loop', eng.where(n, fr), info={'fn': fr.qname}))
                 if var0 is not None:
@@ -481,9 +481,19 @@ def frame_goal(new, old):
 
 
 class LoopCtx:
-    def __init__(self, eng, st, entry, fr, range_info):
+    def __init__(self, eng, st, entry, fr, range_info, node=None):
         self.e = eng; self.st = st; self.cur = View(eng, st); self.entry = View(eng, entry); self.fr = fr
-        self.range_info = range_info; self.this = fr.this
+        self.range_info = range_info; self.this = fr.this; self.node = node
+
+    @property
+    def counter_name(self):
+        """name of the variable declared in the init-statement of a for(;;) loop (None for other loops)"""
+        n = self.node or {}
+        if n.get('kind') != 'ForStmt': return None
+        init = (n.get('inner') or [{}])[0]
+        for d in (init.get('inner') or []) if init.get('kind') == 'DeclStmt' else []:
+            if d.get('kind') == 'VarDecl': return d.get('name')
+        return None
 
     @property
     def index(self):
